@@ -132,6 +132,22 @@ func newC13Env(thorough bool) (*c13Env, error) {
 			}
 		}
 	}
+	// the fresh-object answer of every operation is taken NOW, before any object is reused: a reuse
+	// that damages package-level state (a shared "empty" sentinel, say) must not be able to damage
+	// the expectation as well
+	for op, o := range e.ops {
+		if o.reiterate {
+			continue
+		}
+		var fdict segment.Dictionary
+		var err error
+		if msg := explore.Guard(func() { fdict, err = e.segs[o.seg].Dictionary(e.fields[o.field]) }); msg != "" || err != nil {
+			return nil, fmt.Errorf("fresh Dictionary: %s", errText(msg, err))
+		}
+		m := &c13Machine{e: e}
+		w, _, _ := doLookup(e, fdict, o, m.except(o), nil, nil)
+		e.want[op] = &w
+	}
 	return e, nil
 }
 
